@@ -171,11 +171,12 @@ def run(ctx):
                 ctx.fail('C14/aux-moments', 'auxiliary pseudo-data not distributed according to the constraint term (6σ)', dict(inp, aux=j), z_mean)
     pyhf.set_backend('numpy')
     # ---------------- toy CLs+b / CLb vs exact tails (single bin)
-    for _ in range(ctx.n(2, 25)):
+    for _case in range(ctx.n(2, 25)):
         s = rng.choice([4.0, 6.0]); b = rng.choice([8.0, 15.0]); n_obs = float(rng.choice([int(b), int(b + s), int(b) - 2]))
         mu = rng.choice([1.0, 1.5]); ts = 'qtilde'
         m = pyhf.Model(counting.single_bin_spec(s, b), poi_name='mu')
         ntoys = ctx.n(400, 3000)
+        if _case == 0: ntoys = 1600       # more than one internal batch of toys, and not a whole number of them
         np.random.seed(99 + ctx.seed)
         res = pyhf.infer.hypotest(mu, [n_obs] + m.config.auxdata, m, calctype='toybased', ntoys=ntoys, test_stat=ts,
                                   track_progress=False, return_tail_probs=True)
